@@ -89,6 +89,7 @@ type Check struct {
 	Exhaustive func(tier string) []*Plan // optional: a finite sub-space enumerated completely
 	Components Components
 	Assumptions []string
+	NoShrink   bool // plans are single faults on minimal scenarios already
 }
 
 type Components struct {
@@ -310,7 +311,10 @@ func RunWorker(o WorkerOpts) *WorkerResult {
 			if len(seen) > 40 || perRule[viol.Rule] > 4 {
 				continue // enough distinct findings of this kind; keep counting only
 			}
-			sp, sv, n := shrinkPlan(ck, p, o.Prop, viol)
+			sp, sv, n := p, viol, 0
+			if !ck.NoShrink {
+				sp, sv, n = shrinkPlan(ck, p, o.Prop, viol)
+			}
 			rf := &ReplayFile{Property: o.Prop, Fingerprint: fp, VerifSeed: o.Seed, RunSeed: fmt.Sprintf("%016x", rs), Tier: o.Tier,
 				Plan: sp, Violation: *sv, ShrinkRuns: n}
 			// record the trace and hash of the minimised run
